@@ -13,7 +13,7 @@ from .common import (Case, HELD, VIOLATED, INCONCLUSIVE, TERM, bad_outcome, file
 ID = "C15"
 LEVEL = "exploration"
 BUILDS = ["rel"]
-BUDGET_S = {"quick": 150, "thorough": 2400}
+BUDGET_S = {"quick": 600, "thorough": 2400}
 RULE = ("Random real git repositories (5-40 files, depth <=4; directories named a, b, b/b, names with spaces and dots, hidden "
         "files and directories, a .gitignore with dir/, *.gen.py and /rooted patterns) x 0-3 positional globs x 0-3 "
         "--ignore globs drawn from the four documented forms x {no diff, diff inside the globs, diff outside the globs, "
